@@ -93,6 +93,17 @@ func wholeOps(thorough bool) []wholeOp {
 			ctx.Write.FileName = filepath.Base(out)
 			return pdfcpu.WriteContext(ctx)
 		}},
+		{name: "WriteContext", run: func(dir, in, in2, out string) error {
+			// a processing error while writing: the catalog reference dangles
+			ctx, err := api.ReadValidateAndOptimize(mustOpen(in), model.NewDefaultConfiguration())
+			if err != nil {
+				return err
+			}
+			ctx.Root = types.NewIndirectRef(99999, 0)
+			ctx.Write.DirName = filepath.Dir(out)
+			ctx.Write.FileName = filepath.Base(out)
+			return pdfcpu.WriteContext(ctx)
+		}},
 		{name: "SplitFile", multi: true, run: func(dir, in, in2, out string) error { return api.SplitFile(in, dir, 1, nil) }},
 		{name: "ExtractPagesFile", multi: true, run: func(dir, in, in2, out string) error { return api.ExtractPagesFile(in, dir, nil, nil) }},
 		{name: "NDownFile", multi: true, run: func(dir, in, in2, out string) error {
@@ -287,17 +298,29 @@ func partWholeOps(r *vh.Run) {
 			}
 			// panic at log-call index i
 			var idx []int
-			if r.Thorough() || rec.calls <= 6 {
-				for i := 0; i < rec.calls && i < 80; i++ {
+			seen := map[int]bool{}
+			add := func(i int) {
+				if i >= 0 && i < rec.calls && !seen[i] {
+					seen[i] = true
 					idx = append(idx, i)
 				}
+			}
+			if rec.calls <= 6 {
+				for i := 0; i < rec.calls; i++ {
+					add(i)
+				}
+			} else if r.Thorough() {
+				// the first and last 12 log calls and 60 evenly spread ones
+				for i := 0; i < 12; i++ {
+					add(i)
+					add(rec.calls - 1 - i)
+				}
+				for j := 0; j < 60; j++ {
+					add(j * rec.calls / 60)
+				}
 			} else {
-				seen := map[int]bool{}
 				for _, i := range []int{0, 1, rec.calls / 3, rec.calls / 2, rec.calls - 2, rec.calls - 1} {
-					if i >= 0 && i < rec.calls && !seen[i] {
-						seen[i] = true
-						idx = append(idx, i)
-					}
+					add(i)
 				}
 			}
 			for _, i := range idx {
